@@ -35,8 +35,11 @@ pub fn parse_header_value(input: &str) -> Vec<(&str, f32)> {
             for p in params {
                 if p.trim_start().starts_with("q=") {
                     if let Ok(val) = f32::from_str(p.trim_start()[2..].trim()) {
-                        value = val;
-                        break;
+                        // NaN is not a quality value, and would break the ordering of the list
+                        if !val.is_nan() {
+                            value = val;
+                            break;
+                        }
                     }
                 }
             }
